@@ -31,6 +31,21 @@ theorem c20_symmetric {W : Type} (P : Prims W) (L : ChannelLaws P) (a b ida idb 
         body.length = m.length ∧ (chanOf P a b ida idb).decrypt P body (P.H m) = some m) :=
   ⟨one_way P L a b ida idb m, one_way P L b a idb ida m⟩
 
+/-- the same with counter mode described by its DEFINITION (output = input xor a key stream fixed by key and
+initial counter) instead of the involution law: involution and length preservation are then proved, not assumed. -/
+theorem c20_symmetric_stream {W : Type} (P : Prims W)
+    (dh_comm : ∀ a b, P.dh a (P.xPub b) = P.dh b (P.xPub a))
+    (conv : ∀ seed, P.edToXPub (P.edPub seed) = P.xPub (P.edToXPriv seed))
+    (H_len : ∀ x, (P.H x).length = 32) (dh_len : ∀ a b, (P.dh a b).length = 32)
+    (hs : CtrIsStream P) (a b ida idb m : Bytes) :
+    (∃ body, (chanOf P a b ida idb).encrypt P m =
+          some ((chanOf P b a idb ida).serverAesKeyId ++ P.H m ++ body) ∧
+        body.length = m.length ∧ (chanOf P b a idb ida).decrypt P body (P.H m) = some m) ∧
+    (∃ body, (chanOf P b a idb ida).encrypt P m =
+          some ((chanOf P a b ida idb).serverAesKeyId ++ P.H m ++ body) ∧
+        body.length = m.length ∧ (chanOf P a b ida idb).decrypt P body (P.H m) = some m) :=
+  c20_symmetric P (channelLaws_of_stream P dh_comm conv H_len dh_len hs) a b ida idb m
+
 /-- the three-way decision spelled out: with `s` the shared secret, the (enc, dec) keys are
 `(s, reverse s)` if `local_id > peer_id`, `(reverse s, s)` if `local_id < peer_id`, `(s, s)` if equal; the
 advertised key ids are `H(d4adbc2d ‖ enc)` / `H(d4adbc2d ‖ dec)`; and both ends derive the same `s`. -/
@@ -168,6 +183,16 @@ theorem toy_channel_laws : ChannelLaws toy where
   ctr_len := fun k iv m => by simp [toy]
   H_len := fun x => pad_length 32 x
   dh_len := fun a b => natToBE_length 32 _
+
+/-- the toy counter mode is a stream cipher in the sense of `CtrIsStream`. -/
+theorem toy_ctr_stream : CtrIsStream toy := by
+  refine ⟨fun k iv n => List.replicate n ((natOfBE k + natOfBE iv) % 256), fun _ _ _ => by simp, ?_⟩
+  intro k iv m
+  simp only [toy, xorBytes]
+  generalize (natOfBE k + natOfBE iv) % 256 = c
+  induction m with
+  | nil => rfl
+  | cons x xs ih => simp [List.replicate_succ, ih]
 
 /-- … and the signing law. -/
 theorem toy_sign_law : SignLaw toy where
